@@ -7,6 +7,24 @@ let dispatch (f : string array) : string option =
   let nat i = nat_of_int (int_of_string f.(i)) in
   let z i = z_of_string f.(i) in
   match f.(0) with
+  | "defer" ->
+      (* defer <tokens>: D<n> L<n> { } R P *)
+      let toks = List.filter (fun x -> x <> "") (String.split_on_char ' ' f.(1)) in
+      let rec parse toks : stmts * string list =
+        match toks with
+        | [] -> (SNil, [])
+        | "}" :: rest -> (SNil, rest)
+        | "{" :: rest -> let (body, rest1) = parse rest in let (tl, rest2) = parse rest1 in (SCons (SScope body, tl), rest2)
+        | "R" :: rest -> let (tl, rest1) = parse rest in (SCons (SReturn, tl), rest1)
+        | "P" :: rest -> let (tl, rest1) = parse rest in (SCons (SPanic, tl), rest1)
+        | t :: rest ->
+            let n = nat_of_int (int_of_string (String.sub t 1 (String.length t - 1))) in
+            let (tl, rest1) = parse rest in
+            (SCons ((if t.[0] = 'D' then SDefer n else SLog n), tl), rest1) in
+      let (prog, _) = parse toks in
+      let (log, e) = api_defer_run prog in
+      Some (Printf.sprintf "log=%s;exit=%s" (String.concat "," (List.map (fun n -> string_of_int (int_of_nat n)) log))
+              (match e with Normal -> "N" | Returned -> "R" | Panicked -> "P"))
   | "it_drop" -> Some (out_nlist (api_it_drop (nat 1) (z 2)))
   | "it_drop_spec" -> Some (out_nlist (api_it_drop_spec (nat 1) (z 2)))
   | "it_slice" -> Some (out_nlist (api_it_slice (nat 1) (z 2) (z 3)))
